@@ -118,6 +118,19 @@ def check_nowiki(ctx, c, e):
         wantd = ["ROOT", {"largs": [["Tt"]]}, [["TABLE", [["TABLE_ROW", [["TABLE_CELL", [q + "\n"]]]]]]]]
     if d != wantd:
         out.append(("parse_single_text_node", d, wantd))
+    # the same through the expanding parse modes (the text is expanded first and parsed afterwards): nothing of c may be
+    # interpreted on the second pass either
+    for mode in ({"expand_all": True}, {"pre_expand": True}):
+        ctx.start_page("Tt")
+        try:
+            d2 = dump(ctx.parse(text, **mode))
+        except Exception as ex:
+            d2 = "EXC " + type(ex).__name__
+        want2 = wantd
+        if e == "arg" and mode.get("expand_all"):
+            want2 = ["ROOT", {"largs": [["Tt"]]}, ["[" + q + "]"]]
+        if d2 != want2:
+            out.append(("parse_single_text_node:" + sorted(mode)[0], d2, want2))
     return text, out
 
 
